@@ -268,6 +268,41 @@ try:
                     bad.append(f"round {r} after touch + chmod of {os.path.relpath(f2, src)!r} (content unchanged): target {t}: {b}")
         if len(bad) > 12:
             break
+    # targets in DIFFERENT prior states within one send(): a copy with the same contents but other mtimes (checksum matches: no content for it),
+    # next to targets that lack the files or hold other contents - each target must end up complete, whichever request the sender serves first
+    for r in range(3 if MODE == "quick" else 10):
+        work = os.path.join(base, f"mixed{r}")
+        src = os.path.join(work, "src")
+        TOP_SRC[0] = src
+        os.makedirs(os.path.join(src, "sub"))
+        for i in range(24):
+            with open(os.path.join(src, "sub" if i % 3 == 0 else "", f"f{i:02d}.txt"), "w") as f:
+                f.write(f"content {i} " * (1 + i * 40))
+            os.utime(f.name, (1_500_000_000 + i, 1_500_000_000 + i))
+        dsts = [os.path.join(work, f"dst{t}") for t in range(3)]
+        shutil.copytree(src, dsts[0])                              # same contents, fresh mtimes
+        for rel, v in snapshot(dsts[0]).items():
+            if v[0] == "file":
+                os.utime(os.path.join(dsts[0], rel), (1_400_000_000, 1_400_000_000))
+        os.makedirs(os.path.join(dsts[2], "sub"))
+        for i in range(0, 24, 2):                                  # other contents of the same and of another size
+            with open(os.path.join(dsts[2], "sub" if i % 3 == 0 else "", f"f{i:02d}.txt"), "w") as f:
+                f.write("old" if i % 4 else "x" * os.path.getsize(os.path.join(src, "sub" if i % 3 == 0 else "", f"f{i:02d}.txt")))
+        VARIANT["slash"], VARIANT["callback"] = False, r % 2 == 1
+        rs = Rep(src)
+        for gw, d in zip(gws, dsts):
+            rs.add_target(gw, d)
+        try:
+            rs.send()
+        except Exception as e:
+            bad.append(f"mixed round {r}: send() raised {type(e).__name__}: {e!s:.80}")
+            continue
+        n += 1
+        for t, d in enumerate(dsts):
+            for b in compare(src, d, False, {})[:2]:
+                bad.append(f"mixed round {r} (targets: same-content copy with other mtimes / absent / other contents) target {t}: {b}")
+        if len(bad) > 12:
+            break
 finally:
     os.chdir(start_cwd)
     group.terminate(2)
